@@ -63,6 +63,28 @@ def oracle_subclass(text):
     return None
 
 
+def history_failures(n=400):
+    """texts of equal length created, lexed and dropped one after the other: CPython hands the address of the dropped
+    string to the next one, so anything remembered about `the text lexed last` by identity shows here"""
+    from sqlparse import lexer
+    out = []
+    prev = None
+    for k in range(n):
+        s = 'select c%04d from t%04d where k = %04d' % (k, (7 * k) % 10000, (13 * k) % 10000)
+        try:
+            toks = list(lexer.tokenize(s))
+            bad = None if ''.join(v for _, v in toks) == s else 'token values do not concatenate to the input'
+        except Exception as e:  # noqa
+            bad = 'exception ' + type(e).__name__
+        if bad:
+            out.append({'input': [ord(c) for c in s], 'history': 'the text lexed just before (dropped): %r' % prev,
+                        'observed': bad + ' (after lexing and dropping another text of the same length)'})
+            break
+        prev = s
+        del s, toks
+    return out
+
+
 def gen_texts(ctx, n):
     out = []
     dist = collections.Counter()
@@ -83,6 +105,7 @@ def run(ctx):
     res = {'disagreements': [], 'failures': [], 'samples': []}
     # stage lex
     replies = vlib.run_model(['lex ' + vlib.cps(s) for s in texts])
+    res['failures'] += history_failures()
     shapes = set()
     nsub = 0
     for s, r in zip(texts, replies):
@@ -205,6 +228,8 @@ def search(ctx, hints):
             if f:
                 fails.append(f)
     if not fails:
+        fails += history_failures()
+    if not fails:
         for s in ('select 1', 'a', ''):
             tried += 1
             f = oracle_subclass(s)
@@ -217,7 +242,7 @@ def search(ctx, hints):
 
 
 def shrink(f):
-    if f and f.get('long_input'):
+    if f and (f.get('long_input') or f.get('history')):
         return f
     s = ''.join(map(chr, f['input']))
     best = f
@@ -241,6 +266,9 @@ def shrink(f):
 
 def replay(payload):
     f = payload.get('failure')
+    if f and f.get('history'):
+        g = history_failures()
+        return {'fails': bool(g), 'observed': g[:1]}
     if not f or 'input' not in f:
         return {'fails': False, 'note': 'no concrete input in replay file: ' + str(payload.get('no_longer_checks'))}
     if f.get('long_input'):
